@@ -430,8 +430,8 @@ def _iter_python_files(paths: Iterable[Path]) -> Iterable[Path]:
 
 
 def _namespace_name(filename: Path) -> str:
-    filename = Path(filename).absolute()
-    return str(filename).replace(os.path.sep, ".")
+    # The path itself: replacing the separators by dots maps a/b.py and a.b.py to the same key
+    return str(Path(filename).absolute())
 
 
 def _used_names_in_file(filename: Path) -> Collection[str]:
